@@ -1397,7 +1397,7 @@ pub fn run_ros_property(opt: &Options, prop: &'static str) -> i32 {
     let (inputs, schedules, climb_steps) = if opt.thorough() {
         (opt.scaled(if prop == "C05" { 2_500_000 } else { 1_200_000 }), 50u64, 40u64)
     } else {
-        (opt.scaled(if prop == "C05" { 160_000 } else { 80_000 }), 20u64, 10u64)
+        (opt.scaled(if prop == "C05" { 240_000 } else { 100_000 }), 20u64, 10u64)
     };
     let fps = Distinct::new(30);
     let nontrivial = Distinct::new(30);
